@@ -31,7 +31,7 @@ P("C01", "proof", kani={"timeout": "600s", "compile_clause": True}, rac=["emit"]
   bounded="operator adjacency / chain length (Kani programs)",
   not_decided="left-to-right composition for chains outside the enumerated family; that parse_until applies the table (C14)")
 P("C02", "proof", kani={"timeout": "600s", "compile_clause": True}, rac=["emit"],
-  unbounded="the ten wrapper operators; placeholder builder; replace preserves operator and restores all operands",
+  unbounded="the ten wrapper operators; placeholder builder; replace preserves operator and restores all operands; the closure spliced at <<< is exactly |v| inner (wrap_last_step_stream); one branch of one step of generate_step (R15 lifted closure): for every action list the parser can produce the stack discipline holds, wrappers still open at the end of a step are closed by the loop (terminates with one frame); lemma_split_balance: the builder's per-step balance is the stack depth in every step",
   bounded="nesting programs (Kani)")
 P("C07", "proof", rac=["spawn_agree"],
   unbounded="alias part: the 12 Config literals equal the documented triples, so every alias has its target's Config for every input",
@@ -52,6 +52,7 @@ P("C05", "model_checking", native=True, kani={"timeout": "900s"},
   not_decided="spawn kinds (threads / tokio tasks): not executable by Kani; the per-step abort code of join_steps is decided by the bounded programs only")
 
 P("C06", "model_checking", native=True, kani={"timeout": "900s"},
+  unbounded="the step structure the abort acts on: split_steps (see C03) and the transport of the `~` mark; the abort code of join_steps itself is decided by the bounded programs only",
   bounded="same programs as C05; trace contract: exact event sequence of the staged reference (sync), no event of a step after the failing one (async)",
   not_decided="spawn kinds (threads / tokio tasks)")
 P("C04", "model_checking", native=True, kani={"timeout": "900s"},
@@ -63,6 +64,7 @@ P("C09", "model_checking", native=True, kani={"timeout": "1200s"},
   bounded="join_async!/try_join_async!, profiles n<=3 d<=2 (thorough: d<=3, n=4 sample), one harness-controlled gate per (branch, step) with symbolic pending count <= 1: every readiness pattern incl. batches; polls <= 1 + sum_s max_i p_is",
   not_decided="tokio-task variants beyond the 6 native programs of spawn_sweep (one schedule each, 5 s timeout); unbounded liveness")
 P("C03", "model_checking", native=True, kani={"timeout": "1200s"},
+  unbounded="where a step begins: the fold of JoinOutput::new that splits a branch (R15 lifted closure + R13) computes split_steps(members) - a new step at every member carrying the `~` mark and nowhere else, order kept; the mark reaches it unchanged (parse_until suffix, ActionGroup::parse_stream, to_wrapper_action_expr: action == self, ExprGroup::application_type)",
   bounded="sync: profiles n<=3 d<=3 with 7 operator kinds rotating over positions (incl. deferred error operators), exact staged trace; async: same gate programs as C09, monotone step numbers in the trace",
   not_decided="OS-thread interleavings and tokio task schedules (Kani has no thread support)")
 
